@@ -130,6 +130,7 @@ def finish_check(pid, tier, prop, base_seed, cfg, aggs, dead, t0, nworkers, scra
     sim_time = steps = exec_jobs = events = 0
     samples, harness_errors, violating = [], [], []
     vclasses = {}
+    slowest = []
     det_map = {}
     det_mismatch = []
     det_pairs = 0
@@ -140,6 +141,7 @@ def finish_check(pid, tier, prop, base_seed, cfg, aggs, dead, t0, nworkers, scra
         sim_time += a['sim_time']; steps += a['steps']; exec_jobs += a['exec_jobs']; events += a['events']
         samples += a['samples']
         harness_errors += a['harness_errors']
+        slowest += [tuple(x) for x in a.get('slowest', [])]
         violating += a['violating']
         for idx, d in a['digest_by_index'].items():
             if idx in det_map:
@@ -231,6 +233,7 @@ def finish_check(pid, tier, prop, base_seed, cfg, aggs, dead, t0, nworkers, scra
             'determinism_pairs_checked': det_pairs,
             'determinism_mismatches': len(det_mismatch),
             'hashseeds': list(HASHSEEDS), 'workers': nworkers,
+            'slowest_runs_wall_s_index_family': sorted(slowest, reverse=True)[:5],
         },
         'assumptions': getattr(prop, 'ASSUMPTIONS', []),
         'wall_s': round(wall, 2),
